@@ -49,7 +49,7 @@ pub enum EAct {
     SetDuration { ns: u64 },
 }
 
-pub const GEN_OFFSET: u64 = 1_000_000_000_000; // genesis = world genesis + 1000 s
+pub const GEN_OFFSET: u64 = 4 * 86_400_000_000_000; // genesis = world genesis + 4 days (more than one 3-day duration ahead)
 
 fn mgr_epoch(w: &World, h: &EH) -> Option<(u64, u64)> {
     if h.root.distributor {
@@ -118,6 +118,8 @@ impl Scenario for EpochScn {
         // time targets relative to genesis and to the next boundary; only forward moves
         let boundary = if g.start_ns == 0 { h.genesis_ns } else { g.start_ns + g.duration_ns };
         let targets: Vec<(&str, u64)> = vec![
+            ("genesis-duration-1ns", h.genesis_ns - g.duration_ns - 1),
+            ("genesis-duration", h.genesis_ns - g.duration_ns),
             ("genesis-1ns", h.genesis_ns - 1),
             ("genesis", h.genesis_ns),
             ("boundary-1ns", boundary - 1),
@@ -151,6 +153,8 @@ impl Scenario for EpochScn {
             EAct::SetTime { kind } => {
                 let boundary = if g.start_ns == 0 { h.genesis_ns } else { g.start_ns + g.duration_ns };
                 let t = match kind.as_str() {
+                    "genesis-duration-1ns" => h.genesis_ns - g.duration_ns - 1,
+                    "genesis-duration" => h.genesis_ns - g.duration_ns,
                     "genesis-1ns" => h.genesis_ns - 1,
                     "genesis" => h.genesis_ns,
                     "boundary-1ns" => boundary - 1,
@@ -183,7 +187,7 @@ impl Scenario for EpochScn {
                 match &r {
                     Ok(_) => {
                         cx.count("create:ok");
-                        if now - if first_of_distributor { h.genesis_ns } else { g.start_ns + g.duration_ns } >= g.duration_ns {
+                        if now.saturating_sub(if first_of_distributor { h.genesis_ns } else { g.start_ns + g.duration_ns }) >= g.duration_ns {
                             cx.count("create:ok_late");
                         }
                         let want_id = g.id + 1;
